@@ -129,6 +129,7 @@ pub struct Report {
   pub capped_execs: u64,
   pub aborted_execs: u64,
   pub hung_execs: u64,
+  pub spurious_hang_suspicions: u64,
   pub hung: Vec<String>,
   pub samples: Vec<Value>,
   pub machinery: Vec<String>,
@@ -162,6 +163,7 @@ impl Report {
     self.capped_execs += o.capped_execs;
     self.aborted_execs += o.aborted_execs;
     self.hung_execs += o.hung_execs;
+    self.spurious_hang_suspicions += o.spurious_hang_suspicions;
     self.hung.extend(o.hung);
     for s in o.samples {
       if self.samples.len() < 12 {
@@ -222,6 +224,7 @@ fn panic_class(msg: &str) -> String {
 
 const HANG_SECS: u64 = 6;
 const MAX_HANGS: u64 = 12;
+const CONFIRM_SECS: u64 = 10;
 
 #[derive(Default)]
 struct Beat {
@@ -383,6 +386,20 @@ pub fn run_jobs(jobs: Vec<Job>, threads: usize) -> Report {
         }
       }
       if let Some((i, prefix)) = hang {
+        // a real lock cycle is deterministic: the same choices block again. A
+        // worker that was merely starved of CPU (loaded machine) is not a hang.
+        let (tx, rx) = std::sync::mpsc::channel();
+        let (sh3, p3) = (sh.clone(), prefix.clone());
+        let _ = std::thread::Builder::new().stack_size(16 << 20).spawn(move || {
+          let mut ch = Chooser::new(p3, u32::MAX);
+          let _ = run_one(&sh3.jobs[i], &mut ch, false);
+          let _ = tx.send(());
+        });
+        if rx.recv_timeout(std::time::Duration::from_secs(CONFIRM_SECS)).is_ok() {
+          sh.total.lock().unwrap().spurious_hang_suspicions += 1;
+          b.lock().unwrap().dead = false;
+          continue;
+        }
         let job = &sh.jobs[i];
         {
           let mut t = sh.total.lock().unwrap();
@@ -396,7 +413,7 @@ pub fn run_jobs(jobs: Vec<Job>, threads: usize) -> Report {
               i,
               &job.name,
               prefix.clone(),
-              format!("execution did not return within {HANG_SECS}s (blocked for good); choices {prefix:?} then defaults"),
+              format!("execution did not return within {HANG_SECS}s and again not within {CONFIRM_SECS}s when re-executed (blocked for good); choices {prefix:?} then defaults"),
             );
           } else {
             t.hung.push(format!("{} choices {:?}", job.name, prefix));
@@ -528,6 +545,7 @@ pub fn finish(f: Finish, rep: &Report, jobs: &[(String, ())], t0: Instant) -> i3
     "executions_that_hit_a_cap": rep.capped_execs,
     "executions_aborted_by_library_panic_not_judged_here": rep.aborted_execs,
     "executions_that_never_returned": rep.hung_execs,
+    "slow_executions_that_returned_on_re_execution": rep.spurious_hang_suspicions,
     "never_returned_not_judged_here": rep.hung.iter().take(10).collect::<Vec<_>>(),
     "bounds": f.bounds,
     "violation_classes": class_json,
